@@ -733,3 +733,126 @@ func Touching(r *Rng) (subj, clp Paths) {
 	}
 	return
 }
+
+// Stacked: inputs that pile paths on top of one another. Mode A: 130..400 nested same-orientation rings (winding numbers
+// in the hundreds at the centre), optionally crossed by a few clip polygons. Mode B: 2..8 coincident copies of a few
+// boxes (identical rings, some reversed), smaller boxes inside them and boxes sitting on their shared edges.
+func Stacked(r *Rng) (subj, clp Paths) {
+	scale := PickOf(r, int64(1), 10, 1000)
+	if r.Chance(0.4) {
+		k := int64(130 + r.Intn(271))
+		step := PickOf(r, int64(1), 2, 5)
+		R := k*step + r.Range(5, 50)
+		ccw := r.Chance(0.7)
+		tri := r.Chance(0.3)
+		for i := int64(0); i < k; i++ {
+			d := R - i*step
+			if tri {
+				p := Path{{X: -d, Y: -d}, {X: d, Y: -d}, {X: 0, Y: d}}
+				if !ccw {
+					p = Reverse(p)
+				}
+				subj = append(subj, p)
+			} else {
+				subj = append(subj, Box(-d, -d, d, d, ccw))
+			}
+		}
+		if r.Chance(0.2) { // a few rings of the other orientation lower the count again
+			for i := 0; i < 1+r.Intn(20); i++ {
+				d := r.Range(3, R)
+				subj = append(subj, Box(-d, -d, d, d, !ccw))
+			}
+		}
+		for i := 0; i < r.Intn(3); i++ {
+			clp = append(clp, StarPoly(r, r.Range(-R, R), r.Range(-R, R), float64(R)*0.3, float64(R)*0.9, 3+r.Intn(6), r.Bool()))
+		}
+	} else if r.Chance(0.4) {
+		// coincident outer boxes in both sets, coincident inner boxes, and bars that reach from an outer edge to (or
+		// beyond) the inner box: rings that exist only through splits of rings that were themselves split off
+		w, h := r.Range(5, 10), r.Range(5, 10)
+		var all Paths
+		for c := 0; c < 2+r.Intn(5); c++ {
+			all = append(all, Box(0, 0, w, h, r.Chance(0.6)))
+		}
+		ix0, iy0 := r.Range(1, 2), r.Range(1, 2)
+		ix1, iy1 := w-r.Range(1, 2), h-r.Range(1, 2)
+		for c := 0; c < 1+r.Intn(3); c++ {
+			all = append(all, Box(ix0, iy0, ix1, iy1, r.Chance(0.4)))
+		}
+		for b := 0; b < 1+r.Intn(3); b++ {
+			switch r.Intn(4) {
+			case 0: // from the top edge (y=h) inwards
+				ax := r.Range(0, w-1)
+				all = append(all, Box(ax, h-r.Range(1, h-1), r.Range(ax+1, w), h, r.Chance(0.7)))
+			case 1: // from the bottom edge
+				ax := r.Range(0, w-1)
+				all = append(all, Box(ax, 0, r.Range(ax+1, w), r.Range(1, h-1), r.Chance(0.7)))
+			case 2: // from the left edge
+				ay := r.Range(0, h-1)
+				all = append(all, Box(0, ay, r.Range(1, w-1), r.Range(ay+1, h), r.Chance(0.7)))
+			default: // from the right edge
+				ay := r.Range(0, h-1)
+				all = append(all, Box(w-r.Range(1, w-1), ay, w, r.Range(ay+1, h), r.Chance(0.7)))
+			}
+		}
+		cp := r.FloatRange(0.2, 0.6)
+		for _, i := range r.Perm(len(all)) {
+			if r.Chance(cp) {
+				clp = append(clp, all[i])
+			} else {
+				subj = append(subj, all[i])
+			}
+		}
+		if len(subj) == 0 {
+			subj, clp = clp, nil
+		}
+	} else {
+		m := int64(6 + r.Intn(7))
+		var all Paths
+		for b := 0; b < 1+r.Intn(3); b++ {
+			x0, y0 := r.Range(0, m-3), r.Range(0, m-3)
+			x1, y1 := r.Range(x0+2, m), r.Range(y0+2, m)
+			copies := 2 + r.Intn(7)
+			for c := 0; c < copies; c++ {
+				all = append(all, Box(x0, y0, x1, y1, r.Chance(0.8)))
+			}
+			// boxes inside, boxes sitting on an edge (inside or outside), boxes sharing a corner
+			for e := 0; e < r.Intn(5); e++ {
+				switch r.Intn(5) {
+				case 0, 4:
+					if x1-x0 > 2 && y1-y0 > 2 {
+						ax, ay := r.Range(x0+1, x1-2), r.Range(y0+1, y1-2)
+						all = append(all, Box(ax, ay, r.Range(ax+1, x1-1), r.Range(ay+1, y1-1), r.Chance(0.7)))
+					}
+				case 1: // on the bottom / top edge, reaching 1 or more units inwards (may bridge to an inner box)
+					ax := r.Range(x0, x1-1)
+					dep := r.Range(1, y1-y0-1)
+					if r.Bool() {
+						all = append(all, Box(ax, y0, r.Range(ax+1, x1), y0+dep, r.Chance(0.7)))
+					} else {
+						all = append(all, Box(ax, y1-dep, r.Range(ax+1, x1), y1, r.Chance(0.7)))
+					}
+				case 2: // on the left / right edge, outside
+					ay := r.Range(y0, y1-1)
+					xx := PickOf(r, x0-1, x1)
+					all = append(all, Box(xx, ay, xx+1, r.Range(ay+1, y1), r.Chance(0.7)))
+				default:
+					all = append(all, Box(x1, y1, x1+r.Range(1, 3), y1+r.Range(1, 3), r.Chance(0.7)))
+				}
+			}
+		}
+		cp := r.FloatRange(0, 0.5)
+		for _, i := range r.Perm(len(all)) {
+			if r.Chance(cp) {
+				clp = append(clp, all[i])
+			} else {
+				subj = append(subj, all[i])
+			}
+		}
+		if len(subj) == 0 {
+			subj, clp = clp, nil
+		}
+	}
+	subj, clp = ScaleInt(subj, scale), ScaleInt(clp, scale)
+	return
+}
